@@ -2,4 +2,8 @@
 
 package ctlog
 
+import "context"
+
 func verifPoint(l *Log, name string) {}
+
+func verifSubmitted(ctx context.Context, source string) {}
